@@ -1,5 +1,5 @@
 //@unit sm4_block
-//@serves C02
+//@serves C02 C20
 //@source gm-sm4/src/lib.rs
 //@rewrite be
 //@export s_enc s_dec s_rk_of theorem_block
